@@ -19,7 +19,7 @@ def report(rep, mm, asts_by_id, origin):
 def run(rep, tier, seed):
     thorough = tier == "thorough"
     rep.assumptions += ["the oracle is spec/Lang.tla + Values.tla (definitional semantics) and spec/Unparse.tla (published grammar, minimal parentheses)",
-                        "out of the oracle's domain (dropped, counted): integers beyond 2^20, non-dyadic floats, values nested deeper than 6 unless they are graphs of at most 10 containers (cyclic or sharing: comparison and printing remember where they have been), printing of dicts with >=2 keys; attribute look-up follows __proto__ chains (stopping at a dict already visited)",
+                        "out of the oracle's domain (dropped, counted): integers beyond 2^20, non-dyadic floats, values nested deeper than 6 unless they are graphs of at most 10 containers (cyclic or sharing: comparison and printing remember where they have been), walks (printing, keys/values/items) over dicts whose keys are not plain ASCII words - dicts are walked in the byte order of their keys; attribute look-up follows __proto__ chains (stopping at a dict already visited)",
                         "trusted on the Go side: token joiner (legal whitespace only), literal escaper, projection of values to tagged JSON"]
     with Work("c02") as w:
         # 1. exhaustive small scope
